@@ -51,8 +51,13 @@ def coq_project():
 
 def coq_make(targets, timeout=1500):
     """Full .vo build of the given targets (paths relative to coq/, e.g. props/C05.vo)."""
-    coq_project()
-    rc, out = sh('make -j%d %s' % (NCPU, ' '.join(targets)), cwd=COQ, timeout=timeout)
+    os.makedirs(WORK, exist_ok=True)
+    lock = os.path.join(WORK, 'make.lock')
+    import fcntl
+    with open(lock, 'w') as lf:
+        fcntl.flock(lf, fcntl.LOCK_EX)          # one make at a time in coq/ (checks may run concurrently)
+        coq_project()
+        rc, out = sh('make -j%d %s' % (NCPU, ' '.join(targets)), cwd=COQ, timeout=timeout)
     return rc == 0, out
 
 
